@@ -780,3 +780,90 @@ func identOf(e ast.Expr) *ast.Ident {
 	id, _ := ast.Unparen(e).(*ast.Ident)
 	return id
 }
+
+// R05i: in the parser's string helpers (functions of parse that take a string and cut it), a slice bound
+// of the form e+K is dominated by a comparison of that very bound with the string's length.
+func ruleR05i(c *Ctx) {
+	pf := getParseFacts(c)
+	if pf == nil {
+		return
+	}
+	nr := newNoRet(c)
+	n := 0
+	for fn, fd := range pf.funcs {
+		_ = fn
+		// string parameters
+		strParams := map[types.Object]bool{}
+		for _, fl := range fd.Type.Params.List {
+			for _, nm := range fl.Names {
+				if o := pf.info.Defs[nm]; o != nil {
+					if b, ok := o.Type().Underlying().(*types.Basic); ok && b.Kind() == types.String {
+						strParams[o] = true
+					}
+				}
+			}
+		}
+		if len(strParams) == 0 {
+			continue
+		}
+		// aliases n := len(s)
+		alias := map[string]string{}
+		ast.Inspect(fd.Body, func(x ast.Node) bool {
+			if as, ok := x.(*ast.AssignStmt); ok && len(as.Lhs) == 1 && len(as.Rhs) == 1 {
+				if call, ok := ast.Unparen(as.Rhs[0]).(*ast.CallExpr); ok {
+					if id, ok := call.Fun.(*ast.Ident); ok && id.Name == "len" && len(call.Args) == 1 {
+						alias[exprKey(as.Lhs[0])] = "len(" + exprKey(call.Args[0]) + ")"
+					}
+				}
+			}
+			return true
+		})
+		norm := func(s string) string {
+			for a, b := range alias {
+				s = strings.ReplaceAll(s, a+" ", b+" ")
+				if strings.HasSuffix(s, " "+a) {
+					s = s[:len(s)-len(a)] + b
+				}
+			}
+			return s
+		}
+		ord := 0
+		guardWalk(fd.Body, nr.forInfo(pf.info), func(e ast.Expr, facts factSet) {
+			se, ok := e.(*ast.SliceExpr)
+			if !ok {
+				return
+			}
+			id, ok := ast.Unparen(se.X).(*ast.Ident)
+			if !ok || !strParams[pf.info.Uses[id]] {
+				return
+			}
+			for _, bd := range []ast.Expr{se.Low, se.High} {
+				if bd == nil {
+					continue
+				}
+				be, ok := ast.Unparen(bd).(*ast.BinaryExpr)
+				if !ok || be.Op != token.ADD {
+					continue
+				}
+				if tv, ok := pf.info.Types[be.Y]; !ok || tv.Value == nil {
+					continue
+				}
+				n++
+				ord++
+				key := fmt.Sprintf("%s slice-bound#%d", c.declKey("parse", fd), ord)
+				k := exprKey(bd)
+				lenX := "len(" + exprKey(se.X) + ")"
+				ok2 := false
+				for f := range facts {
+					nf := norm(f)
+					if nf == k+" <= "+lenX || nf == k+" < "+lenX {
+						ok2 = true
+					}
+				}
+				c.check(ok2, "R05i", key, se.Pos(), "the bound "+k+" is compared with "+lenX+" before the string is cut",
+					"the string is cut at "+k+" without a dominating test of that very bound against "+lenX+": an input that ends early makes the slice fault, and the parser re-panics runtime errors")
+			}
+		})
+	}
+	c.floor("R05i", "computed slice bounds in string helpers", 1, n)
+}
